@@ -251,6 +251,41 @@ class Compiler:
                 return len(self._free_vars) - 1
         return None
 
+    def _emit_store_variable(self, name: str) -> None:
+        """Emit the store of the value on the stack into an existing variable.
+
+        Resolution order as for reads: cell (a local captured by an inner
+        function), local slot, variable of an enclosing function, global.
+        """
+        cell_slot = self._get_cell_var(name)
+        if cell_slot is not None:
+            self._emit(OpCode.STORE_CELL, cell_slot)
+            return
+        slot = self._get_local(name)
+        if slot is not None:
+            self._emit(OpCode.STORE_LOCAL, slot)
+            return
+        closure_slot = self._get_free_var(name)
+        if closure_slot is not None:
+            self._emit(OpCode.STORE_CLOSURE, closure_slot)
+            return
+        idx = self._add_name(name)
+        self._emit(OpCode.STORE_NAME, idx)
+
+    def _emit_declare_variable(self, name: str) -> None:
+        """Emit the store of the value on the stack into `var name`."""
+        if self._in_function:
+            self._add_local(name)
+            cell_slot = self._get_cell_var(name)
+            if cell_slot is not None:
+                self._emit(OpCode.STORE_CELL, cell_slot)
+            else:
+                self._emit(OpCode.STORE_LOCAL, self._get_local(name))
+        else:
+            # At program level: use global variable
+            idx = self._add_name(name)
+            self._emit(OpCode.STORE_NAME, idx)
+
     def _is_in_outer_scope(self, name: str) -> bool:
         """Check if name exists in any outer scope."""
         for outer_locals in self._outer_locals:
@@ -354,6 +389,10 @@ class Compiler:
         elif isinstance(node, BlockStatement):
             for stmt in node.body:
                 self._collect_var_decls(stmt, var_set)
+        elif isinstance(node, CatchClause):
+            # The catch parameter is a local of the enclosing function
+            var_set.add(node.param.name)
+            self._collect_var_decls(node.body, var_set)
         elif hasattr(node, "__dict__"):
             for key, value in node.__dict__.items():
                 if isinstance(value, Node) and not isinstance(
@@ -535,23 +574,10 @@ class Compiler:
             # Store key in variable
             if isinstance(node.left, VariableDeclaration):
                 decl = node.left.declarations[0]
-                name = decl.id.name
-                if self._in_function:
-                    self._add_local(name)
-                    slot = self._get_local(name)
-                    self._emit(OpCode.STORE_LOCAL, slot)
-                else:
-                    idx = self._add_name(name)
-                    self._emit(OpCode.STORE_NAME, idx)
+                self._emit_declare_variable(decl.id.name)
                 self._emit(OpCode.POP)
             elif isinstance(node.left, Identifier):
-                name = node.left.name
-                slot = self._get_local(name)
-                if slot is not None:
-                    self._emit(OpCode.STORE_LOCAL, slot)
-                else:
-                    idx = self._add_name(name)
-                    self._emit(OpCode.STORE_NAME, idx)
+                self._emit_store_variable(node.left.name)
                 self._emit(OpCode.POP)
             elif isinstance(node.left, MemberExpression):
                 # for (obj.prop in ...) or for (obj[key] in ...)
@@ -605,23 +631,10 @@ class Compiler:
             # Store value in variable
             if isinstance(node.left, VariableDeclaration):
                 decl = node.left.declarations[0]
-                name = decl.id.name
-                if self._in_function:
-                    self._add_local(name)
-                    slot = self._get_local(name)
-                    self._emit(OpCode.STORE_LOCAL, slot)
-                else:
-                    idx = self._add_name(name)
-                    self._emit(OpCode.STORE_NAME, idx)
+                self._emit_declare_variable(decl.id.name)
                 self._emit(OpCode.POP)
             elif isinstance(node.left, Identifier):
-                name = node.left.name
-                slot = self._get_local(name)
-                if slot is not None:
-                    self._emit(OpCode.STORE_LOCAL, slot)
-                else:
-                    idx = self._add_name(name)
-                    self._emit(OpCode.STORE_NAME, idx)
+                self._emit_store_variable(node.left.name)
                 self._emit(OpCode.POP)
             elif isinstance(node.left, MemberExpression):
                 # for (obj.prop of ...) or for (obj[key] of ...), as in for-in
@@ -749,8 +762,12 @@ class Compiler:
                 # Store exception in catch variable
                 name = node.handler.param.name
                 self._add_local(name)
-                slot = self._get_local(name)
-                self._emit(OpCode.STORE_LOCAL, slot)
+                cell_slot = self._get_cell_var(name)
+                if cell_slot is not None:
+                    # Captured by a closure in the catch body
+                    self._emit(OpCode.STORE_CELL, cell_slot)
+                else:
+                    self._emit(OpCode.STORE_LOCAL, self._get_local(name))
                 self._emit(OpCode.POP)
                 self._compile_statement(node.handler.body)
                 # Fall through to finally
@@ -1256,23 +1273,26 @@ class Compiler:
             # Special case for typeof with identifier - must not throw for undeclared vars
             if node.operator == "typeof" and isinstance(node.argument, Identifier):
                 name = node.argument.name
-                # Check for local, cell, or closure vars first
-                local_slot = self._get_local(name)
+                # Check for cell, local, or closure vars first (same order as a
+                # plain read: a captured local lives in its cell)
                 cell_slot = self._get_cell_var(name)
-                closure_slot = self._get_free_var(name)
-                if local_slot is not None:
-                    self._emit(OpCode.LOAD_LOCAL, local_slot)
-                    self._emit(OpCode.TYPEOF)
-                elif cell_slot is not None:
+                if cell_slot is not None:
                     self._emit(OpCode.LOAD_CELL, cell_slot)
                     self._emit(OpCode.TYPEOF)
-                elif closure_slot is not None:
-                    self._emit(OpCode.LOAD_CLOSURE, closure_slot)
-                    self._emit(OpCode.TYPEOF)
                 else:
-                    # Use TYPEOF_NAME for global lookup - won't throw if undefined
-                    idx = self._add_constant(name)
-                    self._emit(OpCode.TYPEOF_NAME, idx)
+                    local_slot = self._get_local(name)
+                    if local_slot is not None:
+                        self._emit(OpCode.LOAD_LOCAL, local_slot)
+                        self._emit(OpCode.TYPEOF)
+                    else:
+                        closure_slot = self._get_free_var(name)
+                        if closure_slot is not None:
+                            self._emit(OpCode.LOAD_CLOSURE, closure_slot)
+                            self._emit(OpCode.TYPEOF)
+                        else:
+                            # Use TYPEOF_NAME for global lookup - won't throw if undefined
+                            idx = self._add_constant(name)
+                            self._emit(OpCode.TYPEOF_NAME, idx)
             elif node.operator == "delete":
                 # Handle delete specially - don't compile argument normally
                 if isinstance(node.argument, MemberExpression):
